@@ -8,7 +8,7 @@ for i in "$@"; do
 import sys, json, glob
 tag,i=sys.argv[1],sys.argv[2]
 import os
-t=open('/verif/tools/seed_prompt5.tmpl' if tag.startswith('b') else '/verif/tools/seed_prompt4.tmpl' if tag>='r4' else '/verif/tools/seed_prompt.tmpl').read()
+t=open('/verif/tools/seed_prompt6.tmpl' if tag.startswith('b2') else '/verif/tools/seed_prompt5.tmpl' if tag.startswith('b') else '/verif/tools/seed_prompt4.tmpl' if tag>='r4' else '/verif/tools/seed_prompt.tmpl').read()
 props={json.loads(l)['id']:json.loads(l) for l in open('/verif/properties.jsonl')}
 p=json.dumps(props['C'+i],indent=1)
 prior=[]
